@@ -142,7 +142,17 @@ func replaySeeds(verif, repo, prop string) []seedResult {
 				res.Rules = append(res.Rules, r)
 			}
 			sort.Strings(res.Rules)
-			res.Fired = cmd.ProcessState != nil && cmd.ProcessState.ExitCode() == 1
+			code := -1
+			if cmd.ProcessState != nil {
+				code = cmd.ProcessState.ExitCode()
+			}
+			res.Fired = code == 1
+			if code != 0 && code != 1 {
+				// the checker itself failed on this variant (load error, panic): an alarm for a refactoring, not a
+				// detection for a seeded change
+				res.Rules = append(res.Rules, "BROKEN")
+				res.Fired = s.benign
+			}
 		}()
 		out = append(out, res)
 		switch {
@@ -152,6 +162,8 @@ func replaySeeds(verif, repo, prop string) []seedResult {
 			fmt.Printf("WARN false-alarm %s %s: a behaviour-preserving refactoring is reported by %s\n", prop, res.ID, strings.Join(res.Rules, ","))
 		case res.Benign:
 			fmt.Printf("REPLAY %s %s silent (behaviour-preserving refactoring)\n", prop, res.ID)
+		case len(res.Rules) == 1 && res.Rules[0] == "BROKEN":
+			fmt.Printf("WARN broken %s %s: the checker failed on this variant (it neither detects nor clears it)\n", prop, res.ID)
 		case res.Fired:
 			fmt.Printf("REPLAY %s %s detected by %s\n", prop, res.ID, strings.Join(res.Rules, ","))
 		default:
